@@ -254,7 +254,8 @@ Env == \/ \E k \in {"S", "F", "P"} : Op(k) \/ TickOp(k)
        \/ \E e \in (IF CbMayFail THEN BOOLEAN ELSE {FALSE}) : Rel(e)
 
 (* ---------------------------------------------------------- observation *)
-Obs(ev) == [ev |-> ev.e, cberr |-> ev.err, now |-> now, done |-> done, err |-> err, fin |-> fin,
+\* finad = 0: in the model finally() (b_fin) always precedes close(done) (b_close) within finish()
+Obs(ev) == [ev |-> ev.e, cberr |-> ev.err, now |-> now, done |-> done, err |-> err, fin |-> fin, finad |-> 0,
             cb |-> cbRuns, cbad |-> cbAD, pret |-> pret, parked |-> Parked]
 Sched(h) == [kind |-> P.kind, rc |-> P.rc, rd |-> P.rd, to |-> P.to, ev |-> Tail(h)]
 Observe == /\ Forced /\ pend # None /\ Quiescent
